@@ -285,6 +285,45 @@ func (o *ownCtx) ownedVar(f *Fn, v *types.Var) (bool, string) {
 		for _, fld := range root.Decl.Recv.List {
 			for _, id := range fld.Names {
 				if root.Pkg.TypesInfo.Defs[id] == types.Object(v) {
+					// a slice receiver of an unexported method is as owned as what every call in the package is made on
+					// (the accumulator idiom x = x.add(y)); method values would escape the census
+					if !ast.IsExported(root.Decl.Name.Name) && isSliceType(v.Type()) && !o.strict {
+						if gobj, _ := root.Pkg.TypesInfo.Defs[root.Decl.Name].(*types.Func); gobj != nil {
+							o.memoVar[v] = 1
+							sites, uses, bad := 0, 0, ""
+							for _, c := range o.p.FnList {
+								if c.Pkg != root.Pkg || c.Body() == nil {
+									continue
+								}
+								cinfo := c.Pkg.TypesInfo
+								inspectShallow(c.Body(), func(x ast.Node) bool {
+									switch y := x.(type) {
+									case *ast.Ident:
+										if cinfo.Uses[y] == types.Object(gobj) {
+											uses++
+										}
+									case *ast.CallExpr:
+										if o.p.Callee(c.Pkg, y) != gobj {
+											return true
+										}
+										se, ok := ast.Unparen(y.Fun).(*ast.SelectorExpr)
+										if !ok {
+											return true
+										}
+										sites++
+										if okE, w := o.owned(c, se.X); !okE && bad == "" {
+											bad = "the call at " + o.p.Pos(y) + " is made on " + types.ExprString(se.X) + ", which is not owned: " + w
+										}
+									}
+									return true
+								})
+							}
+							if sites > 0 && sites == uses && bad == "" {
+								o.memoVar[v], o.whyVar[v] = 2, fmt.Sprintf("receiver %s: every one of the %d calls of %s is made on owned memory", v.Name(), sites, root.Key())
+								return true, o.whyVar[v]
+							}
+						}
+					}
 					o.memoVar[v], o.whyVar[v] = 3, "receiver "+v.Name()+" (caller's memory)"
 					return false, o.whyVar[v]
 				}
